@@ -14,7 +14,7 @@ What is trusted here: this translator (about 400 lines) and Rt.lean's rendering 
 import ast
 import os
 
-REPO = os.environ.get('VERIF_REPO', '/repo')
+REPO = os.environ.get('CARDUTIL_REPO') or os.environ.get('VERIF_REPO') or '/repo'
 
 
 class Untranslatable(Exception):
@@ -46,12 +46,17 @@ TARGETS = [
     ('cardutil/mciipm.py', 'Block1014.write', {'bytes_to_write': 'bytes'}, None),
     ('cardutil/mciipm.py', 'Block1014.finalise', {}, None),
     ('cardutil/mciipm.py', 'Unblock1014.read', {'bytes_to_read': 'int'}, 'bytes'),
+    # raises that carry information (StopIteration, the library error with record number and context) are results:
+    # the translated method returns an Rt.Signal
+    ('cardutil/mciipm.py', 'VbsReader.__next__', {}, 'bytes'),
 ]
 
 # per class: the fields a method may use, and the wrapped file object as a `sink` (its write(e) appends to self_out) or a
 # `source` (its read(n) takes the next n bytes of self_in)
 SELF_STATE = {'Block1014': {'fields': [('remaining_chars', 'int')], 'sink': 'file_obj'},
-              'Unblock1014': {'fields': [('buffer', 'bytes')], 'source': 'file_obj'}}
+              'Unblock1014': {'fields': [('buffer', 'bytes')], 'source': 'file_obj'},
+              'VbsReader': {'fields': [('record_number', 'int'), ('last_record', 'bytes')], 'source': 'vbs_data',
+                            'signals': True}}
 
 EXC = {'AssertionError': 'assertionError', 'ValueError': 'valueError', 'IndexError': 'indexError',
        'TypeError': 'typeError', 'KeyError': 'keyError'}
@@ -341,11 +346,12 @@ class Translator:
         v = node.value
         if isinstance(v, ast.Call) and isinstance(v.func, ast.Attribute) and isinstance(v.func.value, ast.Name) \
                 and v.func.value.id == 'struct' and v.func.attr == 'unpack' and len(v.args) == 2 \
-                and isinstance(v.args[0], ast.Constant) and v.args[0].value == '>B' and self.const_int(node.slice) == 0:
+                and isinstance(v.args[0], ast.Constant) and v.args[0].value in ('>B', '>I') \
+                and self.const_int(node.slice) == 0:
             rc, rt = self.expr(v.args[1], env)
             if rt not in ('bytes', 'asciibytes'):
                 raise Untranslatable('struct.unpack of a non-bytes value')
-            return self.hoist(f'(Rt.unpackB {rc})', 'int')
+            return self.hoist(f"(Rt.unpack{v.args[0].value[1]} {rc})", 'int')
         vc, vt = self.expr(node.value, env)
         if is_dict(vt):
             kc, kt = self.expr(node.slice, env)
@@ -447,6 +453,12 @@ class Translator:
                     return self.hoist(code, fn.ret)
                 return code, fn.ret
             raise Untranslatable(f'call of {name}')
+        if isinstance(f, ast.Attribute) and f.attr == 'get' and isinstance(f.value, ast.Attribute) \
+                and isinstance(f.value.value, ast.Name) and f.value.value.id == 'config' and f.value.attr == 'config' \
+                and len(node.args) == 2 and isinstance(node.args[0], ast.Constant) \
+                and node.args[0].value == 'MAX_VBS_RECORD_LENGTH':
+            # the configured maximum: the value gen_tables.py read from /repo's configuration for this run
+            return '((Gen.maxVbsRecordLength : Nat) : Int)', 'int'
         if isinstance(f, ast.Attribute):
             # the fused pattern  <bytes>.decode('<codec>').isnumeric()
             if f.attr == 'isnumeric' and not node.args and isinstance(f.value, ast.Call) \
@@ -640,13 +652,18 @@ class Translator:
 
             def go():
                 nc, nt = self.expr(s.value.args[0], env)
-                if nt != 'int' or self.const_int(s.value.args[0]) is None or self.const_int(s.value.args[0]) <= 0:
-                    raise Untranslatable('read() of the wrapped file with a size that is not a positive literal')
+                if nt != 'int':
+                    raise Untranslatable('read() of the wrapped file with a size that is not an int')
                 env2 = dict(env)
                 env2[name] = (name, 'bytes')
                 env2['self_in'] = ('self_in', 'bytes')
-                return (f'let {name} : Bytes := (Rt.slice self_in none (some {nc}));\n  '
-                        f'let self_in : Bytes := (Rt.slice self_in (some {nc}) none);\n  '
+                lit = self.const_int(s.value.args[0])
+                if lit is not None and lit > 0:
+                    return (f'let {name} : Bytes := (Rt.slice self_in none (some {nc}));\n  '
+                            f'let self_in : Bytes := (Rt.slice self_in (some {nc}) none);\n  '
+                            + self.stmts(rest, env2, ret, loop))
+                return (f'let {name} : Bytes := (Rt.readN self_in {nc}).1;\n  '
+                        f'let self_in : Bytes := (Rt.readN self_in {nc}).2;\n  '
                         + self.stmts(rest, env2, ret, loop))
             return self.wrap(go)
         if isinstance(s, ast.Assign) and len(s.targets) == 1 and isinstance(s.targets[0], ast.Name):
@@ -678,8 +695,32 @@ class Translator:
                     c, t = '()', 'none'
                 else:
                     c, t = self.expr(s.value, env)
+                if getattr(self, 'signals', False):
+                    if not self.monadic:
+                        raise NeedMonad()
+                    return f'.ok (Rt.Signal.ret {c})'
                 c = self.coerce(c, t, ret)
                 return f'.ok {c}' if self.monadic else c
+            return self.wrap(go)
+        if isinstance(s, ast.Raise) and getattr(self, 'signals', False) and isinstance(s.exc, ast.Name) \
+                and s.exc.id == 'StopIteration':
+            if not self.monadic:
+                raise NeedMonad()
+            return '.ok Rt.Signal.stop'
+        if isinstance(s, ast.Raise) and getattr(self, 'signals', False) and isinstance(s.exc, ast.Call) \
+                and isinstance(s.exc.func, ast.Name) and s.exc.func.id == 'MciIpmDataError':
+            if not self.monadic:
+                raise NeedMonad()
+            kw = {k.arg: k.value for k in s.exc.keywords}
+            if set(kw) != {'record_number', 'binary_context_data'}:
+                raise Untranslatable('library error raised without record_number / binary_context_data')
+
+            def go():
+                rn, rt = self.expr(kw['record_number'], env)
+                cx, ct = self.expr(kw['binary_context_data'], env)
+                if rt != 'int' or ct not in ('bytes', 'asciibytes'):
+                    raise Untranslatable('library error attributes of unexpected types')
+                return f'.ok (Rt.Signal.libError {rn} {cx})'
             return self.wrap(go)
         if isinstance(s, ast.Raise):
             if not self.monadic:
@@ -786,6 +827,7 @@ def translate_function(mod_ast, fdef, ptypes, ret, known, cls=None):
     lean_name = fdef.name
     state_ast = None
     value_type = None
+    signals = False
     body = fdef.body
     if cls is not None:
         if not arglist or arglist[0].arg != 'self' or cls not in SELF_STATE:
@@ -801,13 +843,18 @@ def translate_function(mod_ast, fdef, ptypes, ret, known, cls=None):
         if 'source' in spec:
             params.append(('self_in', 'bytes'))
             names.append('self_in')
-        lean_name = f'{cls}_{fdef.name}'
-        if len(names) != 2:
-            raise Untranslatable('self state with other than two components')
-        state_ast = ast.Tuple(elts=[ast.Name(id=n, ctx=ast.Load()) for n in names], ctx=ast.Load())
-        state_type = ('tuple',) + tuple(t for _, t in spec['fields']) + ('bytes',)
+        lean_name = f'{cls}_{fdef.name}'.replace('__', '')
+
+        def nest(items):
+            return items[0] if len(items) == 1 else ast.Tuple(elts=[items[0], nest(items[1:])], ctx=ast.Load())
+
+        def nest_t(ts):
+            return ts[0] if len(ts) == 1 else ('tuple', ts[0], nest_t(ts[1:]))
+        state_ast = nest([ast.Name(id=n, ctx=ast.Load()) for n in names])
+        state_type = nest_t([t for _, t in spec['fields']] + ['bytes'])
         value_type = ret
         ret = state_type if value_type in (None, 'none') else ('tuple', value_type, state_type)
+        signals = bool(spec.get('signals'))
     for a in arglist:
         if a.arg not in ptypes:
             raise Untranslatable(f'no type for parameter {a.arg}')
@@ -824,6 +871,7 @@ def translate_function(mod_ast, fdef, ptypes, ret, known, cls=None):
         tr.uses_fuel = False
         tr.self_state = state_ast
         tr.self_value = cls is not None and value_type not in (None, 'none')
+        tr.signals = signals
         if cls is not None:
             import copy
             rw = SelfRewriter(tr, cls, SELF_STATE[cls])
@@ -836,6 +884,8 @@ def translate_function(mod_ast, fdef, ptypes, ret, known, cls=None):
         if tr.uses_fuel:
             sig = '(fuel : Nat) ' + sig
         rt = lean_type(ret)
+        if signals:
+            rt = f'(Rt.Signal {rt})'
         rtype = f'Outcome {rt}' if monadic else rt
         text = f'def {lean_name} {sig} : {rtype} :=\n  {code}\n'
         return text, Fn(lean_name, params, ret, monadic, defaults)
@@ -845,7 +895,7 @@ def translate_function(mod_ast, fdef, ptypes, ret, known, cls=None):
 def translate_all(repo=REPO):
     """returns (lean text of Gen/Src.lean, {function: 'ok' | reason})"""
     out = ['-- GENERATED by harness/pytrans.py from the Python source of /repo on every run -- do not edit',
-           'import Cardutil.Py.Rt', 'import Cardutil.Gen.PyTables', 'namespace Cardutil.Src',
+           'import Cardutil.Py.Rt', 'import Cardutil.Gen.PyTables', 'import Cardutil.Gen.Limits', 'namespace Cardutil.Src',
            'open Cardutil Cardutil.Py', '']
     status = {}
     known_by_module = {}
